@@ -623,18 +623,38 @@ example : numberFormatV (.sc (.dec true 4 2)) [.sc (.int 1)] = .ok (.sc (.str [4
 /-- number_format: with the sign (dropped when the result is zero), for every input outside the recorded tie class the printed digits
     are those of the exact decimal rounding (`fixedParts (specRound …)`), grouped by `goGroup` -/
 theorem C19_number_format_filter (neg : Bool) (m k d : Nat) (dp sep : Bytes) (hx : exactFloat m k = true)
-    (hn : goFixedN m k d < 10 ^ 15) (hsep : sep ≠ []) (hd : 0 < d) (hd2 : d < 2 ^ 63)
+    (hn : goFixedN m k d < 10 ^ 15) (hsep : sep ≠ []) (hd : 0 < d) (hd2 : d ≤ 1000000)
     (htie : decimalTie m k d = false) :
     numberFormatV (.sc (.dec neg m k)) [.sc (.int d), .sc (.str dp), .sc (.str sep)] =
       .ok (.sc (.str ((if neg && specRound m k d != 0 then [45] else []) ++ goGroup sep (fixedParts (specRound m k d) d).1 ++
         (dp ++ (fixedParts (specRound m k d) d).2)))) := by
   have e := C19_number_format_exact_partial m k d htie
-  have h1 : ¬ ((d : Int) < 0) := by omega
+  have h1 : ¬ ((d : Int) > 1000000) := by omega
   have h3 : ¬ (goFixedN m k d ≥ 10 ^ 15) := by omega
   have h4 : sep.isEmpty = false := by cases sep <;> simp_all
   have hin : inInt64 (d : Int) = true := inInt64_of_bounds _ (by omega) (by omega)
   rw [e] at h3
   simp [numberFormatV, toFloatArg, optIntArg, toIntArg, pure, Except.pure, hx, h1, h3, h4, e, hd, hin]
+
+/-- a negative number of decimals means none: `number_format(-d)` is `number_format(0)`, for every value and
+    every separator arguments (the unchanged tree printed a garbled format string; repaired in /repo 66bbb15) -/
+theorem C19_number_format_negative_decimals (v : Val) (d : Int) (rest : List Val) (hd : d < 0) (hin : inInt64 d = true) :
+    numberFormatV v (.sc (.int d) :: rest) = numberFormatV v (.sc (.int 0) :: rest) := by
+  have h0 : inInt64 (0 : Int) = true := by decide
+  have hle : ¬ (d > 1000000) := by omega
+  have ht : d.toNat = 0 := by omega
+  unfold numberFormatV
+  simp only [optIntArg, toIntArg, hin, h0, if_true, pure, Except.pure, hle, if_false, ht, Int.toNat_zero,
+    show ¬ ((0 : Int) > 1000000) by omega, List.drop_succ_cons, List.drop_zero]
+
+/-- more than a million decimals is an error for every numeric value (never a panic, never a gigabyte of zeros) -/
+theorem C19_number_format_too_many_decimals (neg : Bool) (m k : Nat) (d : Int) (rest : List Val) (hd : d > 1000000)
+    (hin : inInt64 d = true) :
+    numberFormatV (.sc (.dec neg m k)) (.sc (.int d) :: rest) = .err := by
+  unfold numberFormatV
+  simp only [toFloatArg, optIntArg, toIntArg, hin, if_true, pure, Except.pure, hd]
+
+example : numberFormatV (.sc (.dec false 12345 1)) [.sc (.int (-3))] = .ok (.sc (.str [49, 44, 50, 51, 52])) := by decide +kernel
 
 /-! ### thousands separators -/
 
